@@ -140,6 +140,9 @@ func (t *TestRenumberer) processYaml(ruleId string, contents []byte) ([]byte, er
 			return nil, err
 		}
 	}
+	if err := scanner.Err(); err != nil {
+		return nil, err
+	}
 
 	writer.Flush()
 	outputBytes := t.formatEndOfFile(bytes.Split(output.Bytes(), []byte("\n")))
